@@ -636,6 +636,8 @@ def gen_cases(chk, rng):
             yield "file", txt, False
     for t in nestings(tier):
         yield "nest", t, False
+    for t in COLON_ADVERB_TEXTS:
+        yield "colonadv", t, False
 
 
 SAFE_EVAL = re.compile(r"\.(?!f\b)[A-Za-z]")
@@ -658,6 +660,45 @@ class Oracle:
         self.probes = []          # (text, first canonical result) re-parsed at the end of the run
         self.error_texts = []
         self.ncheck = 0
+        # programs parsed (and functions defined) BEFORE everything else on the long-lived interpreter; their structure
+        # (operator arities included) and what they evaluate to must survive every later parse
+        self.sentinels = []
+        for t in SENTINEL_DEFS + SENTINEL_CALLS:
+            r, _ = impl.parse(t)
+            if r[0] == "ok":
+                prog_ = r[1][1]
+                e, _ = impl.budgeted(lambda: [impl.k.call(y) for y in prog_], EVAL_BUDGET)
+                ev = ("ok", impl.dump_value(e[1])) if (e[0] == "ok" and t in SENTINEL_CALLS) else (e[0],)
+                self.sentinels.append([t, prog_, repr([impl.dump(y) for y in prog_]), ev])
+        self.sentinel_vars = self._dump_vars()
+
+    def _dump_vars(self):
+        impl = self.impl
+        out = {}
+        for nm in ("s1", "s2", "s3", "s4", "s5", "s6", "s7", "s8", "s9", "s10"):
+            try:
+                out[nm] = impl.dump_value(impl.k._context[impl.core.KGSym(nm)])
+            except KeyError:
+                out[nm] = None
+        return out
+
+    def sentinels_intact(self, deep):
+        """None, or a description of the earlier program that a later parse changed"""
+        impl = self.impl
+        for t, prog_, d0, ev0 in self.sentinels:
+            d1 = repr([impl.dump(y) for y in prog_])
+            if d1 != d0:
+                return {"earlier_text": t, "earlier_program_before": d0[:300], "earlier_program_after": d1[:300]}
+        if self._dump_vars() != self.sentinel_vars:
+            return {"earlier_text": "function stored in a variable", "before": repr(self.sentinel_vars)[:300], "after": repr(self._dump_vars())[:300]}
+        if deep:
+            for t, prog_, d0, ev0 in self.sentinels:
+                if t in SENTINEL_CALLS:
+                    e, _ = impl.budgeted(lambda: [impl.k.call(y) for y in prog_], EVAL_BUDGET)
+                    ev = ("ok", impl.dump_value(e[1])) if e[0] == "ok" else (e[0],) + tuple(e[1:])
+                    if ev != ev0 and not (ev0[0] != "ok" and ev[0] == ev0[0]):
+                        return {"earlier_text": t, "first_evaluation": repr(ev0)[:200], "evaluation_after_later_parse": repr(ev)[:200]}
+        return None
 
     def check(self, kind, text, ev, chk=None):
         """-> (failure dict | None, canonical result of the first parse, events)"""
@@ -682,6 +723,11 @@ class Oracle:
                     "events": [n1, n2], "case": kind}, c1, n1
         if before != after:
             return {"kind": "parse-touched-variables", "text": text, "case": kind}, c1, n1
+        broken = self.sentinels_intact(deep=(":" in text and self.ncheck % 3 == 0) or self.ncheck % 50 == 0)
+        if broken is not None:
+            broken.update({"kind": "earlier-program-changed-by-later-parse", "text": text, "case": kind,
+                           "history": SENTINEL_DEFS + [broken["earlier_text"]]})
+            return broken, c1, n1
         if ev and r1[0] == "ok" and can_eval(text):
             p1 = r1[1][1]
             p2 = r2[1][1]
@@ -824,12 +870,21 @@ def check_histories(chk, rng, impl):
             r, _ = impl.parse(text, impl.K(), module=md)
             fresh[key] = ("ok", impl.dump_prog(r[1])) if r[0] == "ok" else r
         return fresh[key]
+    nasty = nasty + COLON_ADVERB_TEXTS
+    pure = [t for t in pool_ok if can_eval(t) and "::" not in t][:2000] + SENTINEL_CALLS
     for h in range(n_hist):
         k = impl.K()
         hist = []
+        kept = []          # earlier programs of this history: [text, module, program, dump, first evaluation]
+        for t in SENTINEL_DEFS[:rng.randint(0, len(SENTINEL_DEFS))]:
+            r, _ = impl.parse(t, k)
+            if r[0] == "ok":
+                pr = r[1][1]
+                impl.budgeted(lambda: [k.call(y) for y in pr], EVAL_BUDGET)
+                hist.append([t, None])
         for j in range(rng.randint(3, 6)):
             u = rng.random()
-            text = rng.choice(nasty) if u < 0.3 else (rng.choice(pool_err) if u < 0.6 else rng.choice(pool_ok))
+            text = rng.choice(nasty) if u < 0.35 else (rng.choice(pool_err) if u < 0.55 else (rng.choice(pure) if u < 0.8 else rng.choice(pool_ok)))
             md = rng.choice([None, None, "m", "geo2"])
             hist.append([text, md])
             chk.count("evaluations")
@@ -843,6 +898,26 @@ def check_histories(chk, rng, impl):
                 if c != want:
                     return {"kind": "reparse-after-other-texts-differs", "text": text, "module": md, "history": hist[:-1],
                             "parse_number": rep, "fresh_interpreter": repr(want)[:300], "later": repr(c)[:300]}
+            # earlier programs of this history: same structure (operator arities included) and same value as at first
+            for kt_, kmd, kprog, kdump, kev in kept:
+                d = repr([impl.dump(y) for y in kprog])
+                if d != kdump:
+                    return {"kind": "earlier-program-changed-by-later-parse", "text": text, "module": md, "history": hist[:-1],
+                            "earlier_text": kt_, "earlier_program_before": kdump[:300], "earlier_program_after": d[:300]}
+                if kev is not None:
+                    e, _ = impl.budgeted(lambda: [k.call(y) for y in kprog], EVAL_BUDGET)
+                    ev = ("ok", impl.dump_value(e[1])) if e[0] == "ok" else e
+                    chk.count("history_reevaluations")
+                    if ev != kev:
+                        return {"kind": "earlier-program-evaluates-differently-after-later-parse", "text": text, "module": md,
+                                "history": hist[:-1], "earlier_text": kt_, "first_evaluation": repr(kev)[:200], "later_evaluation": repr(ev)[:200]}
+            if r[0] == "ok" and len(text) < 300:
+                kprog = r[1][1]
+                kev = None
+                if text in pure and md is None:
+                    e, _ = impl.budgeted(lambda: [k.call(y) for y in kprog], EVAL_BUDGET)
+                    kev = ("ok", impl.dump_value(e[1])) if e[0] == "ok" else e
+                kept.append([text, md, kprog, repr([impl.dump(y) for y in kprog]), kev])
         chk.count("histories")
     return None
 
@@ -964,6 +1039,16 @@ def search_failing(chk, rng, impl, seeds, seen):
 
 
 MODULES = ["m", "geo2"]
+COLON_OPS = ["::", ":=", ":^", ":%", ":+", ":$", ":-", ":@", ":_", ":#", ":>", ":<", ":~", ":*"]
+ADVERB_TOKENS = ["'", ":\\", ":'", ":/", "/", ":~", ":*", "\\", "\\~", "\\*", "@'"]
+COLON_ADVERB_TEXTS = ["7%s%s2" % (o, a) for o in COLON_OPS for a in ADVERB_TOKENS] + \
+                     ["%s%s[1 2]" % (o, a) for o in COLON_OPS for a in ADVERB_TOKENS] + \
+                     ["a%s%s%sb" % (o, a, a2) for o in COLON_OPS[:6] for a in ("/", ":~") for a2 in ("'", ":*")]
+# programs kept across later parses: functions stored in variables that use every two-character operator, and pure calls of them
+SENTINEL_DEFS = ["s1::{x:%y}", "s2::{x:+y}", "s3::{x:^y}", "s4::{x:=y}", "s5::{x:$y}", "s6::{x:_y}", "s7::{x:#y}", "s8::{[q];q::x;q}",
+                 "s9::{x+y}", "s10::{x,/:~y}"]
+SENTINEL_CALLS = ["s1(7;2)", "s2([1 2];[3 4])", "s3([1 2 3 4];2)", "s4([1 2 3];[9 0])", "s5(3;5)", "s6(2;[1 2 3 4])", "s7(1;65)", "s8(4)",
+                  "s9(1;2)", "s10(1;[[2]])", "7:%2", "[1 2]:+[3 4]", "2:^[1 2 3 4]"]
 R6_TEXT = '.comment("")'
 WITNESS_TEXTS = [R6_TEXT, R6_TEXT + " 1", "a::1;" + R6_TEXT + "\nb", '.comment("")"")', ".comment(0c )", '.comment("q")q',
                  '.comment("ab")ababab 1', ".comment(x) x", 'f(.comment(""))', '{.comment("")}']
